@@ -34,6 +34,21 @@ def K(fi: FuncInfo, what: str) -> str:
     return f"{fi.module.name}:{fi.qualname}:{what}"
 
 
+def fact_first(chk, tag: str, where: str, why: Optional[str]) -> bool:
+    """Fact-level rules (checks/c01e.py) run first; True when they decided.  Otherwise a note is recorded and the caller
+    falls back to the pinned-form reading."""
+    decided = chk.__dict__.setdefault("facts_decided", set())
+    if why is None:
+        decided.add(tag)
+        return True
+    chk.ok("fact-level", where, f"{tag}: fact-level evaluation not possible ({why[:160]}); falling back to the pinned forms")
+    return False
+
+
+def decided(chk, tag: str) -> bool:
+    return tag in chk.__dict__.get("facts_decided", set())
+
+
 # ------------------------------------------------------------------------------------------------
 # L6 alphabets
 # ------------------------------------------------------------------------------------------------
@@ -56,6 +71,8 @@ def check_alphabet(chk) -> None:
     for fi in (mk, post, fcfs):
         chk.note_function(fi)
     brackets = local_value(chk, mk, "brackets")
+    if isinstance(brackets, list) and all(isinstance(b, (tuple, list)) and len(b) == 2 and all(isinstance(c, str) and len(c) == 1 for c in b) for b in brackets):
+        brackets = ["".join(b) for b in brackets]  # (opening, closing) pairs are the same table
     opening = local_value(chk, post, "opening")
     closing = local_value(chk, post, "closing")
     ok = (
@@ -130,7 +147,37 @@ def check_alphabet(chk) -> None:
         chk.violation("decoder-stacks-fresh", post.where, "all bracket types share one stack object: positions of different bracket types are mixed", K(post, "begins"), found=norm(b_expr))
     else:
         chk.error("decoder-stacks-fresh", post.where, f"construction of the per-type stacks not recognised: {norm(b_expr) if b_expr is not None else None}")
-    # FCFS availability table as long as the alphabet
+    # MultiStrandDotBracket structure class = '.' + all bracket characters
+    ms = repo.func(MOD, "MultiStrandDotBracket.from_string")
+    chk.note_function(ms)
+    pats = [c.args[0] for c in astq.calls(ms.node, "finditer") if c.args]
+    if not pats or not isinstance(pats[0], ast.Constant):
+        chk.error("alphabet-multistrand", ms.where, "regular expression of from_string not found")
+    else:
+        classes = regex_classes(pats[0].value)
+        want_cls = set("." + REF_OPEN + REF_CLOSE)
+        hit = [c for c in classes if c == want_cls]
+        chk.expect(
+            bool(hit),
+            "alphabet-multistrand",
+            ms.site(pats[0]),
+            "structure character class of MultiStrandDotBracket.from_string = '.' + the 60 bracket characters",
+            "no character class of the regular expression equals '.' + the 60 bracket characters: some notation produced by the library would not be read back",
+            K(ms, "structure-class"),
+            found=["".join(sorted(c)) for c in classes],
+        )
+
+
+def check_fcfs_levels_pinned(chk) -> None:
+    """Pinned form: the FCFS availability table is as long as the encoder's bracket table."""
+    repo = chk.repo
+    mk = repo.func(MOD, "BpSeq.__make_dot_bracket")
+    fcfs = repo.func(MOD, "BpSeq.fcfs")
+    try:
+        brackets = local_value(chk, mk, "brackets")
+    except AnalysisError:
+        brackets = None
+    ok = isinstance(brackets, list)
     av = astq.single_def(fcfs.node, "available")
     n_av = None
     if av is not None:
@@ -159,25 +206,6 @@ def check_alphabet(chk) -> None:
             K(fcfs, "available-length"),
             expected=len(brackets) if ok else None,
             found=n_av,
-        )
-    # MultiStrandDotBracket structure class = '.' + all bracket characters
-    ms = repo.func(MOD, "MultiStrandDotBracket.from_string")
-    chk.note_function(ms)
-    pats = [c.args[0] for c in astq.calls(ms.node, "finditer") if c.args]
-    if not pats or not isinstance(pats[0], ast.Constant):
-        chk.error("alphabet-multistrand", ms.where, "regular expression of from_string not found")
-    else:
-        classes = regex_classes(pats[0].value)
-        want_cls = set("." + REF_OPEN + REF_CLOSE)
-        hit = [c for c in classes if c == want_cls]
-        chk.expect(
-            bool(hit),
-            "alphabet-multistrand",
-            ms.site(pats[0]),
-            "structure character class of MultiStrandDotBracket.from_string = '.' + the 60 bracket characters",
-            "no character class of the regular expression equals '.' + the 60 bracket characters: some notation produced by the library would not be read back",
-            K(ms, "structure-class"),
-            found=["".join(sorted(c)) for c in classes],
         )
 
 
@@ -288,18 +316,24 @@ def regions_term(chk, fi: FuncInfo) -> Tuple[SymEnv, Any]:
 
 
 def check_conflict_graph(chk, fi: FuncInfo) -> None:
+    """The conflict graph of an encoder: fact level first (checks/c01e.py), pinned form as the fallback."""
+    from checks import c01e
+
+    if fact_first(chk, f"conflict-graph:{fi.qualname}", fi.where, c01e.graph_fact(chk, fi)):
+        return
+    check_conflict_graph_pinned(chk, fi)
+
+
+def check_conflict_graph_pinned(chk, fi: FuncInfo) -> None:
     """convert_to_dot_bracket / all_dot_brackets: all unordered region pairs examined, edge iff crossing, both directions."""
     chk.note_function(fi)
     env, R = regions_term(chk, fi)
     # the If whose body adds to graph
     adds = [c for c in astq.calls(fi.node, "add") if isinstance(c.func.value, ast.Subscript) and astq.dotted(c.func.value.value) == "graph"]
     if len(adds) < 1:
-        chk.violation(
-            "conflict-graph",
-            fi.where,
-            "no insertion into the conflict graph: crossing stems are never recorded as adjacent",
-            K(fi, "graph-edges"),
-        )
+        # the graph may be built elsewhere or in another way; what a missing / wrong graph does to the results is decided by the
+        # evaluated rules of the consumers (enumeration-fact, milp-adjacency, fcfs-first-fit) - here the idiom is just not readable
+        chk.error("conflict-graph", fi.where, "no `graph[i].add(j)` insertion found: construction of the conflict graph not recognised")
         return
     fm = FlowMap(fi.node)
     tests = []
@@ -399,6 +433,10 @@ def check_stems(chk) -> None:
         expected=sorted(want),
         found=sorted(got_norm),
     )
+    from checks import c01e
+
+    if fact_first(chk, "stems", st.where, c01e.stems_fact(chk)):
+        return
     # iteration source
     fors = [n for n in astq.walk_no_nested(st.node) if isinstance(n, ast.For)]
     if len(fors) != 1:
@@ -542,7 +580,14 @@ def check_regions(chk) -> None:
     """L2: every region triple is (first 5' index, its partner, length) of one stem."""
     repo = chk.repo
     n = 0
-    for q in ("BpSeq.__regions", "BpSeq.fcfs"):
+    from checks import c01e
+
+    todo = ["BpSeq.__regions", "BpSeq.fcfs"]
+    if fact_first(chk, "regions", repo.func(MOD, "BpSeq.__regions").where, c01e.regions_fact(chk)):
+        todo.remove("BpSeq.__regions")
+    if decided(chk, "fcfs") or (not chk.__dict__.get("fcfs_tried") and fact_first(chk, "fcfs", repo.func(MOD, "BpSeq.fcfs").where, _fcfs_fact_once(chk))):
+        todo.remove("BpSeq.fcfs")
+    for q in todo:
         fi = repo.func(MOD, q)
         chk.note_function(fi)
         comps = [
@@ -590,6 +635,16 @@ def check_regions(chk) -> None:
             else:
                 chk.error("region-triple", fi.where, "construction of the region list not recognised")
     chk.floor("region-triple", 2)
+
+
+def _fcfs_fact_once(chk) -> Optional[str]:
+    """BpSeq.fcfs is evaluated once per run (first-fit, regions, result, number of levels)."""
+    from checks import c01e
+
+    if "fcfs_why" not in chk.__dict__:
+        chk.__dict__["fcfs_tried"] = True
+        chk.__dict__["fcfs_why"] = c01e.fcfs_fact(chk, N_LEVELS)
+    return chk.__dict__["fcfs_why"]
 
 
 # ------------------------------------------------------------------------------------------------
@@ -715,6 +770,16 @@ def _inside(outer: ast.AST, node: ast.AST) -> bool:
 
 
 def check_fill(chk) -> None:
+    """The fill: fact level first (every level, nested stems, the decoder reads it back), affine loop summary as the fallback."""
+    from checks import c01e
+
+    fi = chk.repo.func(MOD, "BpSeq.__make_dot_bracket")
+    if decided(chk, "fill") or fact_first(chk, "fill", fi.where, c01e.fill_fact(chk)):
+        return
+    check_fill_pinned(chk)
+
+
+def check_fill_pinned(chk) -> None:
     repo = chk.repo
     fi = repo.func(MOD, "BpSeq.__make_dot_bracket")
     chk.note_function(fi)
@@ -830,6 +895,16 @@ def check_fill(chk) -> None:
 # L7 decoder, L8 from_dotbracket
 # ------------------------------------------------------------------------------------------------
 def check_decoder(chk) -> None:
+    """The decoder: fact level first (every balanced notation of <= 5 characters over two types, all 30 types), pinned form as the fallback."""
+    from checks import c01e
+
+    fi = chk.repo.func(MOD, "DotBracket.__post_init__")
+    if fact_first(chk, "decoder", fi.where, c01e.decoder_fact(chk)):
+        return
+    check_decoder_pinned(chk)
+
+
+def check_decoder_pinned(chk) -> None:
     repo = chk.repo
     fi = repo.func(MOD, "DotBracket.__post_init__")
     chk.note_function(fi)
@@ -936,6 +1011,10 @@ def check_from_dotbracket(chk) -> None:
     repo = chk.repo
     fi = repo.func(MOD, "BpSeq.from_dotbracket")
     chk.note_function(fi)
+    from checks import c01e
+
+    if fact_first(chk, "from-dotbracket", fi.where, c01e.from_dotbracket_fact(chk)):
+        return
     env = SymEnv(fi.node)
     p = fi.node.args.args[0].arg
     seq = ("attr", "sequence", ("param", p))
@@ -1055,6 +1134,17 @@ def covers_all_earlier(it: ast.expr, i_name: str) -> bool:
 
 
 def check_fcfs(chk) -> None:
+    """FCFS: fact level first (first-fit on every order type of a few arcs), pinned form as the fallback."""
+    fi = chk.repo.func(MOD, "BpSeq.fcfs")
+    if decided(chk, "fcfs"):
+        return
+    if not chk.__dict__.get("fcfs_tried") and fact_first(chk, "fcfs", fi.where, _fcfs_fact_once(chk)):
+        return
+    check_fcfs_levels_pinned(chk)
+    check_fcfs_pinned(chk)
+
+
+def check_fcfs_pinned(chk) -> None:
     repo = chk.repo
     fi = repo.func(MOD, "BpSeq.fcfs")
     chk.note_function(fi)
@@ -1202,6 +1292,15 @@ def check_fcfs(chk) -> None:
 def check_text_forms(chk) -> None:
     """BPSEQ text <-> entries, sequence, multi-strand text (observe points from_string / __str__ / MultiStrandDotBracket.from_string)."""
     repo = chk.repo
+    from checks import c01e
+
+    pi = repo.func(MOD, "BpSeq.__post_init__")
+    chk.note_function(pi)
+    if not fact_first(chk, "bpseq-pairs", pi.where, c01e.post_init_fact(chk)):
+        t = norm(pi.node)
+        chk.expect("for i, _, j in self.entries:" in t and "if j != 0:" in t and "self.pairs[i] = j" in t and "self.pairs[j] = i" in t, "bpseq-pairs", pi.where, "pairs maps both ends of every paired entry", "BpSeq.pairs is not filled symmetrically from the paired entries", K(pi, "pairs"))
+    if fact_first(chk, "text-forms", repo.func(MOD, "BpSeq.from_string").where, c01e.text_forms_fact(chk)):
+        return
     fs = repo.func(MOD, "BpSeq.from_string")
     st = repo.func(MOD, "BpSeq.__str__")
     sq = repo.func(MOD, "BpSeq.sequence")
@@ -1216,10 +1315,6 @@ def check_text_forms(chk) -> None:
     chk.expect(ok, "bpseq-text", st.where, "str(bpseq) writes 'index letter pair' per entry, newline separated, in entry order", "BpSeq.__str__ does not write `index letter pair` for every entry in order", K(st, "format"), found=[norm(r.value) for r in rets])
     rets = [r for r in sq.node.body if isinstance(r, ast.Return)]
     chk.expect(len(rets) == 1 and norm(rets[0].value) in ("''.join((entry.sequence for entry in self.entries))", "''.join([entry.sequence for entry in self.entries])"), "bpseq-sequence", sq.where, "sequence = the entries' letters in order", "BpSeq.sequence is not the join of entry.sequence over self.entries", K(sq, "sequence"))
-    pi = repo.func(MOD, "BpSeq.__post_init__")
-    chk.note_function(pi)
-    t = norm(pi.node)
-    chk.expect("for i, _, j in self.entries:" in t and "if j != 0:" in t and "self.pairs[i] = j" in t and "self.pairs[j] = i" in t, "bpseq-pairs", pi.where, "pairs maps both ends of every paired entry", "BpSeq.pairs is not filled symmetrically from the paired entries", K(pi, "pairs"))
     ds = repo.func(MOD, "DotBracket.from_string")
     chk.note_function(ds)
     t = norm(ds.node)
@@ -1241,7 +1336,11 @@ def run(chk) -> None:
         "triples describe their stem (def-use roles), the three conflict tests equal arc crossing on all 6 orderings of two arcs "
         "(exhaustive truth table), FCFS is first-fit over all earlier stems, the fill writes exactly start-1+t / partner-1-t for "
         "t in [0,n) with the bracket pair of the stem's level (affine loop summary), encoder table = decoder strings position by "
-        "position (constant folding), the decoder keeps one LIFO stack per type, from_dotbracket writes pairs symmetrically with +1."
+        "position (constant folding), the decoder keeps one LIFO stack per type, from_dotbracket writes pairs symmetrically with +1. "
+        "Each lemma is decided at fact level first (checks/c01e.py): the fragment is interpreted from the ast on one representative per class of a "
+        "finite input partition (order types of <= 4 arcs, levels 0..29, step classes of consecutive pairs, balanced notations of <= 5 characters, "
+        "small contiguous structures) and compared with the definition; it abstains when its classes do not reach every statement of the fragment. "
+        "Call histories: every ordered pair of encoder queries on one object answers as a fresh copy."
     )
     chk.trusted = ["CPython ast and re._parser", "paper argument composing L1-L8 (DESIGN.md §4 C01)"]
     chk.assumptions = ["valid BPSEQ: symmetric pairing, positions of different pairs distinct", "at most 30 bracket levels"]
@@ -1256,20 +1355,32 @@ def run(chk) -> None:
     # third encoder: the enumeration (components, permutations, first-fit, product) - shared with C16
     from checks import c16
 
-    fi_all = repo.func(MOD, "BpSeq.all_dot_brackets")
-    c16.check_components(chk, fi_all)
-    c16.check_permutation_greedy(chk, fi_all)
-    c16.check_product(chk, fi_all)
+    c16.check_enumeration_stages(chk)
     check_fill(chk)
     check_decoder(chk)
     check_from_dotbracket(chk)
     check_text_forms(chk)
-    chk.floor("conflict-predicate", 3)
+    # an encoder must read the same conflict graph / regions whatever was asked of the object before
+    from checks import c01e
+
+    why = c01e.history_fact(chk, c01e.ENCODER_QUERIES)
+    if why is not None:
+        chk.ok("history-independent", "-", f"call histories not evaluable ({why[:120]}); writes to shared state are C12's effect analysis")
+    n_pred = 3 - sum(1 for t in ("conflict-graph:BpSeq.convert_to_dot_bracket", "conflict-graph:BpSeq.all_dot_brackets", "fcfs") if decided(chk, t))
+    if n_pred > 0:
+        chk.floor("conflict-predicate", n_pred)
     chk.floor("fill-stores", 1)
     chk.floor("alphabet-agree", 1)
+    # a solve that ends without an optimum must not be read back (all stems would land on level 0: crossing stems share '()')
+    if not fact_first(chk, "unsolved", repo.func(MOD, "BpSeq.convert_to_dot_bracket").where, c01e.unsolved_readback_fact(chk, "encoder-unsolved")):
+        pass  # C13 / C02 read the pinned form of the status test
     # every encoder returns through the verified fill
-    for q in ("BpSeq.convert_to_dot_bracket", "BpSeq.all_dot_brackets"):
+    for q, tag in (("BpSeq.convert_to_dot_bracket", "uses-fill"), ("BpSeq.all_dot_brackets", "enumeration")):
         fi = repo.func(MOD, q)
+        if tag == "enumeration" and decided(chk, tag):
+            continue
+        if tag == "uses-fill" and fact_first(chk, tag, fi.where, c01e.uses_fill_fact(chk)):
+            continue
         n = len([c for c in ast.walk(fi.node) if isinstance(c, ast.Call) and isinstance(c.func, ast.Attribute) and c.func.attr.endswith("__make_dot_bracket")])
         chk.expect(n >= 1, "encoder-uses-fill", fi.where, f"{n} notation(s) built by the verified fill", "no notation is built by __make_dot_bracket", K(fi, "uses-fill"))
 
@@ -1280,6 +1391,8 @@ ROBUST = {
     "conflict-predicate", "conflict-graph", "conflict-pairs", "stems-filter", "stems-run", "region-triple", "fill-width", "fill-trips", "fill-stores",
     "decoder-lifo", "decoder-early-exit", "fcfs-scan-exit", "fcfs-available-reset", "fcfs-mark", "fcfs-choice", "greedy-choice",
     "components-walk", "greedy-perms", "greedy-earlier-exit", "greedy-mark", "product", "product-skip",
+    # fact-level rules (checks/c01e.py): evaluated on every class of a finite input partition
+    "fcfs-first-fit", "fcfs-levels", "conflict-graph-fact", "enumeration-fact", "stems-run-fact", "stems-source", "from-db-fact", "bpseq-pairs-fact", "history-independent", "encoder-result-fact", "encoder-unsolved", "fill-result", "decoder-fact", "bpseq-text", "bpseq-sequence", "dotbracket-length", "multistrand-text",
 }
 
 
@@ -1289,6 +1402,6 @@ MANIFEST_ENTRY = {
     "of the fill loop's index/trip-count summary and of from_dotbracket's stores, constant-folded agreement of encoder and decoder "
     "alphabets, LIFO-per-type shape of the decoder, first-fit shape of FCFS. Each lemma is a necessary condition; a change of any of "
     "these facts changes the produced or decoded notation for some structure.",
-    "note": "Trusted: CPython ast, the paper argument composing the lemmas. Not decided: the composition itself, BpSeq.from_string on malformed text, behaviour beyond 30 levels. The MILP encoder's level assignment is C02, the enumeration is C16.",
-    "technique": "static analysis: constant folding + def-use role resolution + order-type truth tables + affine loop summaries over the ast",
+    "note": "Trusted: CPython ast, the fragment interpreter's closed table of builtins/stdlib, the paper argument composing the lemmas. Evaluated classes are bounded (<= 4 stems, <= 6 contiguous residues); a part of a function that no class reaches makes the fact rule abstain (pinned form or ANALYSIS-ERROR). Not decided: the composition itself, behaviour beyond 30 levels. The MILP encoder's level assignment is C02, the enumeration is C16.",
+    "technique": "static analysis: constant folding + truth tables over finite input partitions (the encoder fragments are interpreted from the ast - sa/microeval.py, nothing of the library is imported or run - on every order type of <= 4 arcs, every level, every class of 5'->3' step, every balanced notation of <= 5 characters, with statement coverage of the fragment required); fallback: def-use role resolution + order-type truth tables + affine loop summaries over the pinned idioms",
 }
